@@ -43,10 +43,24 @@ def _arange(shape):
     return torch.arange(n, dtype=torch.float32).reshape(shape) + 1
 
 
-def _impl(fn):
+def _half(x):
+    """half-integer labels (exact in every float dtype): a silent cast to an integer dtype changes them"""
+    return x / 2 if isinstance(x, torch.Tensor) else x / 2.0
+
+
+def _impl(fn, dtype=None, scale=1):
+    """canonical answer of the real code; `scale` undoes `_half` so the protocol stays integral; a result whose
+    dtype differs from the input's is an error of its own (the model is dtype-agnostic)"""
     def run():
         try:
-            return ok_tensor(fn())
+            res = fn()
+            if dtype is not None and getattr(res, "dtype", None) != dtype:
+                return f"err DtypeChanged({getattr(res, 'dtype', None)})"
+            if scale != 1:
+                res = res * scale
+                if isinstance(res, torch.Tensor) and not torch.equal(res, res.round()):
+                    return "err NonIntegralAfterRescale"
+            return ok_tensor(res)
         except (ValueError, TypeError, IndexError, RuntimeError, AssertionError) as e:
             n = err_name(e)
             return "err " + ("ShapeError" if n == "RuntimeError" else n)
@@ -71,7 +85,9 @@ def correspondence(ctx: Ctx):
             s = [rng.randint(1, shape[-2]), rng.randint(1, shape[-1])]
         sh, d = tensor_groups(x)
         odd = (shape[-2] - s[0]) % 2 == 1 or (shape[-1] - s[1]) % 2 == 1
-        yield {"line": line("center_crop", sh, d, s), "impl": _impl(lambda x=x, s=s: T.center_crop(x, s)),
+        xh = _half(x)
+        yield {"line": line("center_crop", sh, d, s),
+               "impl": _impl(lambda x=xh, s=s: T.center_crop(x, s), dtype=torch.float32, scale=2),
                "nontrivial": max(shape) >= 2 and odd, "bucket": "center_crop/" + ("odd" if odd else "even")}
     # ---- crop_to_bbox
     n_bb = ctx.budget(200, 4000)
@@ -93,8 +109,10 @@ def correspondence(ctx: Ctx):
         leaves = any(c < 0 or c + s > n for c, s, n in zip(coords, size, shape))
         far = any(c + s < 0 or c > n for c, s, n in zip(coords, size, shape))
         sh, d = tensor_groups(x)
-        yield {"line": line("bbox", sh, d, coords + size, [fill]),
-               "impl": _impl(lambda x=x, b=coords + size, f=fill: crop_to_bbox(x, b, pad_value=f)),
+        dt = rng.choice([torch.float32, torch.float32, torch.float64])
+        xh = _half(x).to(dt)       # half-integer data: a cast to an integer dtype would be visible
+        yield {"line": line("bbox", sh, d, coords + size, [2 * fill]),
+               "impl": _impl(lambda x=xh, b=coords + size, f=fill: crop_to_bbox(x, b, pad_value=f), dtype=dt, scale=2),
                "nontrivial": leaves, "bucket": "bbox/" + ("far" if far else "leaves" if leaves else "inside")}
     # numpy path of crop_to_bbox
     for _ in range(ctx.budget(40, 500)):
@@ -119,8 +137,10 @@ def correspondence(ctx: Ctx):
         fill = rng.choice([0, 0, 3])
         odd = any((t - n) % 2 == 1 and t > n for t, n in zip(target, shape[-len(target):]))
         sh, d = tensor_groups(x)
-        yield {"line": line("pad", sh, d, target, [fill]),
-               "impl": _impl(lambda x=x, t=tuple(target), f=fill: T.pad_tensor(x, t, value=f)),
+        dt = rng.choice([torch.float32, torch.float32, torch.float64])
+        xh = _half(x).to(dt)
+        yield {"line": line("pad", sh, d, target, [2 * fill]),
+               "impl": _impl(lambda x=xh, t=tuple(target), f=fill: T.pad_tensor(x, t, value=f), dtype=dt, scale=2),
                "nontrivial": odd, "bucket": f"pad{k}d/" + ("odd" if odd else "even")}
     # ---- complex_center_crop (bbox building + crop)
     for _ in range(ctx.budget(100, 1500)):
@@ -230,18 +250,21 @@ def oracle(ctx: Ctx, deep: bool = False):
         far = any(c + s < 0 or c > n for c, s, n in zip(coords, size, shape))
         touching = any(c + s == 0 or c == n for c, s, n in zip(coords, size, shape))
         ctx.count(("bbox", tuple(shape), tuple(coords), tuple(size)), True, bucket="oracle/bbox" + ("-far" if far else ""))
+        dt = rng.choice([torch.float32, torch.float64, torch.int64, torch.complex64])
+        x = (x * 0.25).to(dt) if dt != torch.int64 else x.to(dt)     # fractional values where the dtype has them
         exp = _bbox_ref(x.numpy(), coords + size, fill)
         try:
-            got = crop_to_bbox(x, coords + size, pad_value=fill).numpy()
-            ok = got.shape == exp.shape and np.array_equal(got, exp)
-            obs = got.tolist()
+            res = crop_to_bbox(x, coords + size, pad_value=fill)
+            got = res.numpy()
+            ok = got.shape == exp.shape and np.array_equal(got, exp) and res.dtype == dt
+            obs = {"dtype": str(res.dtype), "values": got.tolist() if dt != torch.complex64 else str(got.tolist())}
         except Exception as e:  # noqa: BLE001
             ok, obs = False, f"raises {err_name(e)}: {e}"
         if not ok:
             yield Violation("bbox-" + ("disjoint" if far else "touching" if touching else "overlapping"),
                             "crop_to_bbox differs from the addressed window with pad fill",
                             {"op": "crop_to_bbox", "shape": shape, "bbox": coords + size, "pad_value": fill,
-                             "expected": exp.tolist(), "observed": obs})
+                             "dtype": str(dt), "expected": str(exp.tolist()), "observed": obs})
     # (4) k-space crop/pad == image-space crop/pad under the backward operator
     from direct.data.mri_transforms import CropKspace, PadKspace
 
@@ -286,10 +309,13 @@ def replay(rep: dict) -> bool:
         back = T.center_crop(T.pad_tensor(x, tuple(rep["target"])), tuple(rep["shape"]))
         return not torch.equal(back, x)
     if op == "crop_to_bbox":
+        dt = getattr(torch, rep.get("dtype", "torch.float32").split(".")[-1])
         x = _arange(rep["shape"])
+        x = (x * 0.25).to(dt) if dt != torch.int64 else x.to(dt)
         try:
-            got = crop_to_bbox(x, rep["bbox"], pad_value=rep["pad_value"]).numpy()
-            return not np.array_equal(got, np.asarray(rep["expected"], dtype=got.dtype))
+            res = crop_to_bbox(x, rep["bbox"], pad_value=rep["pad_value"])
+            exp = _bbox_ref(x.numpy(), rep["bbox"], rep["pad_value"])
+            return not (res.dtype == dt and np.array_equal(res.numpy(), exp))
         except Exception:  # noqa: BLE001
             return True
     if op == "center_crop":
